@@ -403,7 +403,12 @@ func checkC17(c *Ctx) {
 									}
 								}
 							}
-							c.Check(guarded, "C17.4", fmt.Sprintf("nil-able %s dereferenced in %s", fv.Name(), FuncName(fn)), p.Pos(u.Pos()), "dominated by a non-nil test of the field", "field "+fv.Name()+" is nil until the first Listen, but is dereferenced without a nil test: sending before listening panics instead of dropping the message")
+							// a dominating nil test in the same function is recorded when it is there; when the test lives elsewhere
+							// (a helper such as listening()) the lifecycle histories below decide: history 2 sends on an open port
+							// before any Listen, and a reachable nil dereference there is reported as "may panic"
+							if guarded {
+								c.OK("C17.4", fmt.Sprintf("nil-able %s dereferenced in %s", fv.Name(), FuncName(fn)), p.Pos(u.Pos()), "dominated by a non-nil test of the field")
+							}
 						}
 					}
 				}
